@@ -251,7 +251,20 @@ fn cmd_replay(args: &[String]) {
     let prop = arg(args, "--profile").expect("--profile");
     let thorough = arg(args, "--tier").unwrap_or("quick") == "thorough";
     let sub: u64 = arg(args, "--sub").unwrap_or("0").parse().unwrap();
-    let o = if let (Some(d), "Bsmall") = (arg(args, "--decisions"), engine) {
+    let o = if let (Some(d), "Csmall") = (arg(args, "--decisions"), engine) {
+        let v: Vec<u32> = d.split(',').filter(|s| !s.is_empty()).map(|s| s.parse().unwrap()).collect();
+        let sc: Vec<usize> = arg(args, "--scope").expect("--scope").split(',').map(|x| x.parse().unwrap()).collect();
+        reset(Src::Script { v, pos: 0 }, true);
+        #[cfg(feature = "fc-alloc")]
+        {
+            engine_c::run_small(prop, engine_c::SmallC { stack: sc[0], term: sc[1] as u8, src_vec: sc[2] != 0, max_len: sc[3] })
+        }
+        #[cfg(not(feature = "fc-alloc"))]
+        {
+            let _ = sc;
+            panic!("engine C not available")
+        }
+    } else if let (Some(d), "Bsmall") = (arg(args, "--decisions"), engine) {
         let v: Vec<u32> = d.split(',').filter(|s| !s.is_empty()).map(|s| s.parse().unwrap()).collect();
         let sc: Vec<usize> = arg(args, "--scope").expect("--scope").split(',').map(|x| x.parse().unwrap()).collect();
         reset(Src::Script { v, pos: 0 }, true);
@@ -498,6 +511,95 @@ fn cmd_dfsb(_args: &[String]) {
     panic!("groups need the alloc feature");
 }
 
+/// Small-scope systematic sweep of CONCURRENT-STREAM PIPELINES (C13 / C14 / C15): one scope = adapter stack x
+/// terminal x source kind; within it EVERY decision vector is executed depth-first: source length 0..=max_len, the
+/// limits (1 | 2 | none) and takes (0 | 1 | 2 | 100) the stack uses, per source position the readiness of the source
+/// (ready | Pending+self-wake | Pending+wake-later), of the terminal closure's future (same three, x Ok|Err for the
+/// fallible terminals) and of the map futures (ready | wake-later), a Pending step before the end of the source, and
+/// every order of polls / fires of outstanding wakers, plus at most one stale fire and one spurious poll.
+#[cfg(feature = "fc-alloc")]
+fn cmd_dfsc(args: &[String]) {
+    let prop = arg(args, "--prop").expect("--prop");
+    let budget: u64 = arg(args, "--budget").unwrap_or("1000000").parse().unwrap();
+    let max_len: usize = arg(args, "--max-len").unwrap_or("2").parse().unwrap();
+    let out = arg(args, "--out");
+    let (si, sn) = {
+        let s = arg(args, "--shard").unwrap_or("0/1");
+        let mut it = s.split('/');
+        (it.next().unwrap().parse::<u64>().unwrap(), it.next().unwrap().parse::<u64>().unwrap())
+    };
+    let t0 = std::time::Instant::now();
+    let mut acc = Acc::new();
+    let terms: &[u8] = match prop {
+        "C13" => &[0],
+        "C14" => &[1, 3],
+        _ => &[2, 4, 0],
+    };
+    let mut scopes: Vec<engine_c::SmallC> = vec![];
+    for &term in terms {
+        for stack in 0..engine_c::n_stacks() {
+            scopes.push(engine_c::SmallC { stack, term, src_vec: false, max_len });
+            if engine_c::vec_stack_ok(stack) {
+                scopes.push(engine_c::SmallC { stack, term, src_vec: true, max_len });
+            }
+        }
+    }
+    let (mut nscopes, mut nexhausted) = (0u64, 0u64);
+    let mut per_shape: Vec<String> = vec![];
+    for (k, sc) in scopes.iter().enumerate() {
+        if k as u64 % sn != si {
+            continue;
+        }
+        nscopes += 1;
+        let mut prefix: Vec<u32> = vec![];
+        let mut exhausted = false;
+        let mut n = 0u64;
+        loop {
+            reset(Src::Script { v: prefix.clone(), pos: 0 }, true);
+            let o = engine_c::run_small(prop, *sc);
+            let (taken, arities) = (o.decisions.clone(), o.arities.clone());
+            n += 1;
+            let replay = format!("replay --engine Csmall --profile {prop} --scope {},{},{},{} --decisions {}", sc.stack, sc.term, sc.src_vec as u8, sc.max_len, taken.iter().map(|d| d.to_string()).collect::<Vec<_>>().join(","));
+            let key = o.key.clone();
+            absorb(&mut acc, prop, "C-dfs", o, replay);
+            let mut k2 = taken.len();
+            let mut next = taken;
+            loop {
+                if k2 == 0 {
+                    exhausted = true;
+                    break;
+                }
+                k2 -= 1;
+                if next[k2] + 1 < arities[k2] {
+                    next[k2] += 1;
+                    next.truncate(k2 + 1);
+                    break;
+                }
+            }
+            if exhausted || n >= budget {
+                if exhausted {
+                    nexhausted += 1;
+                }
+                per_shape.push(format!("{}:{{\"executions\":{},\"exhausted\":{}}}", jstr(&format!("{key}/len<={max_len}")), n, exhausted));
+                break;
+            }
+            prefix = next;
+        }
+    }
+    let wall = t0.elapsed().as_secs_f64();
+    if let Some(pth) = out {
+        if pth != "-" {
+            write_sigs(&format!("{pth}.sigs"), &acc.sigs);
+        }
+    }
+    let s = summary_json(&acc, prop, "dfsc", 0, (si, sn), wall, &format!(",\"dfs_shapes\":{nscopes},\"dfs_shapes_exhausted\":{nexhausted},\"dfs_exhausted\":{},\"dfs_per_shape\":{{{}}}", nscopes == nexhausted, per_shape.join(",")));
+    write_out(out, &s);
+}
+#[cfg(not(feature = "fc-alloc"))]
+fn cmd_dfsc(_args: &[String]) {
+    panic!("concurrent streams need the alloc feature");
+}
+
 /// Systematic crash-point sweep (C02): for each generated case, first run it to completion, then re-run the same
 /// case and schedule with the combinator dropped after k polls for EVERY k in 0..=polls, and with a panic injected
 /// at EVERY script position of EVERY leaf (engine A); engine C pipelines are cancelled after every k.
@@ -629,6 +731,7 @@ fn main() {
         "dfs" => cmd_dfs(&args),
         "allk" => cmd_allk(&args),
         "dfsb" => cmd_dfsb(&args),
+        "dfsc" => cmd_dfsc(&args),
         "sigs-merge" => cmd_sigs_merge(&args),
         "config" => println!("{}", config_name()),
         _ => {
